@@ -6,10 +6,15 @@ from harness import tlc
 CFG = "INIT Init\nNEXT Next\nCHECK_DEADLOCK FALSE\nINVARIANT Design\n"
 
 
+_CACHE: dict = {}
+
+
 def design_level(ctx, family: str, maxlen: int) -> None:
-    rs = tlc.run_sharded("MC_Asm", CFG, tag=f"{ctx.prop.lower()}.mc.{family}", nshards=16, heap="2g",
-                         env={"MAXLEN": maxlen, "FAMILY": family, "EMIT": 0, "PHASECHECK": 1}, timeout=7200)
-    ctx.add_tlc(rs, f"MC_Asm family={family} all programs <= {maxlen} statements: Design invariant")
+    """one exploration checks the Design invariant on every program and streams the programs (kept for programs())"""
+    rs = tlc.run_sharded("MC_Asm", CFG + "INVARIANT Emit\n", tag=f"{ctx.prop.lower()}.mc.{family}", nshards=16, heap="2g",
+                         env={"MAXLEN": maxlen, "FAMILY": family, "EMIT": 1, "PHASECHECK": 1}, timeout=14400)
+    ctx.add_tlc(rs, f"MC_Asm family={family} all programs <= {maxlen} statements: Design invariant (+ programs streamed)")
+    _CACHE[(family, maxlen)] = [p for r in rs for p in r.printed if isinstance(p, dict) and "body" in p]
 
 
 def refute_pinned(ctx) -> None:
@@ -22,6 +27,11 @@ def refute_pinned(ctx) -> None:
 
 
 def programs(ctx, family: str, maxlen: int) -> list[dict]:
+    if (family, maxlen) in _CACHE:
+        progs = _CACHE.pop((family, maxlen))
+        if len(progs) < 100:
+            raise tlc.TLCFailure(f"MC_Asm generator produced only {len(progs)} programs")
+        return progs
     rs = tlc.run_sharded("MC_Asm", "INIT Init\nNEXT Next\nCHECK_DEADLOCK FALSE\nINVARIANT Emit\n",
                          tag=f"{ctx.prop.lower()}.gen.{family}", nshards=16, heap="2g",
                          env={"MAXLEN": maxlen, "FAMILY": family, "EMIT": 1, "PHASECHECK": 1}, timeout=7200)
